@@ -1,17 +1,19 @@
 #!/bin/bash
 # ./run.sh Cxx quick|thorough|--replay <path>
-export GOFLAGS=-mod=mod GOPROXY=off GOSUMDB=off GOTOOLCHAIN=local
+# VERIF_GOFLAGS / VERIF_WORK are only set by tools/seed_eval.sh (evaluation of a change from a scratch worktree)
+export GOFLAGS="-mod=mod $VERIF_GOFLAGS" GOPROXY=off GOSUMDB=off GOTOOLCHAIN=local
 export GOCACHE=${GOCACHE:-/root/.cache/go-build}
 cd /verif || exit 2
 id="$1"; shift
 lc=$(echo "$id" | tr 'A-Z' 'a-z')
-mkdir -p .work/bin evidence replays
+W=${VERIF_WORK:-.work}
+mkdir -p $W/bin evidence replays
 if [ -x "checks/$lc/driver.sh" ]; then
   exec "checks/$lc/driver.sh" "$@"
 fi
-if ! go build -tags verif -o ".work/bin/$lc" "./checks/$lc" 2>.work/build_$lc.log; then
-  cat .work/build_$lc.log >&2
+if ! go build -tags verif -o "$W/bin/$lc" "./checks/$lc" 2>$W/build_$lc.log; then
+  cat $W/build_$lc.log >&2
   echo "ERROR: build of check $id failed against the current /repo tree" >&2
   exit 2
 fi
-exec ".work/bin/$lc" "$@"
+exec "$W/bin/$lc" "$@"
